@@ -526,11 +526,11 @@ func (g *graph) updateToValidateMap() error {
 	for {
 		hasChanged := false
 		for startNode := range g.toValidateMap {
-			startNodeOutputType = g.getNodeOutputType(startNode)
-
 			for i := 0; i < len(g.toValidateMap[startNode]); i++ {
 				endNode := g.toValidateMap[startNode][i]
 
+				// read the start node's type for every entry: an earlier entry of this list may just have inferred it
+				startNodeOutputType = g.getNodeOutputType(startNode)
 				endNodeInputType = g.getNodeInputType(endNode.endNode)
 				if startNodeOutputType == nil && endNodeInputType == nil {
 					continue
